@@ -5,6 +5,9 @@ import (
 	"runtime/debug"
 )
 
+// curTier is set by the worker (quick|thorough); the developer entry point leaves it empty.
+var curTier string
+
 // RunResult is what one simulated run produced.
 type RunResult struct {
 	Seed       uint64
@@ -51,6 +54,9 @@ func runGenerate(prof *Profile, seed uint64, verbose bool) (res *RunResult) {
 	s.Verbose = verbose
 	g := newGen(r, prof)
 	steps := prof.StepsMin + r.Intn(prof.StepsMax-prof.StepsMin+1)
+	if curTier == "thorough" && seed%4 == 1 {
+		steps *= 3 // the thorough tier also runs longer histories
+	}
 	for i := 0; i < steps; i++ {
 		op := g.Next(s)
 		res.Trace = append(res.Trace, op)
